@@ -5,7 +5,9 @@ package main
 
 import (
 	"fmt"
+	"go/token"
 	"go/types"
+	"regexp"
 	"sort"
 	"strings"
 
@@ -535,4 +537,559 @@ func ruleNumErrValue(c *Ctx) []Obligation {
 		})
 	}
 	return obs
+}
+
+// ---------------------------------------------------------------- ERR.MERGEKEEP (hunt/h3/C01/finding1, the other direction)
+
+func init() {
+	register(&Rule{Name: "ERR.MERGEKEEP", Props: []string{"C04", "C06", "C07"}, Floor: 2,
+		Doc: "the link function loses no recorded error: the errors of the merged entry itself, which is not kept, are taken over, and so are those of a child that is refused as a duplicate instead of being linked",
+		Run: ruleErrMergeKeep})
+}
+
+func ruleErrMergeKeep(c *Ctx) []Obligation {
+	const R = "ERR.MERGEKEEP"
+	merge := c.mergeFn()
+	entry := c.MustNamed("yang", "Entry")
+	fDir, fErrs := FieldVar(entry, "Dir"), FieldVar(entry, "Errors")
+	con1 := "merge: the errors of the merged entry itself are taken over by the target"
+	con2 := "merge: the errors of a child that is not linked are taken over by the target"
+	if merge == nil || fDir == nil || fErrs == nil {
+		return []Obligation{undecided(R, con1, "-", "the link function / Entry.Dir / Entry.Errors not found")}
+	}
+	// functions that (transitively) add to Entry.Errors
+	adds := func(fn *ssa.Function) bool {
+		if fn == nil || !c.isRepoFn(fn) {
+			return false
+		}
+		for f := range c.Reach([]*ssa.Function{fn}, nil) {
+			if c.isRepoFn(f) && len(storesToField(f, fErrs)) > 0 {
+				return true
+			}
+		}
+		return false
+	}
+	var rng *ssa.Range
+	var source ssa.Value
+	c.eachInstrDeep(merge, func(in ssa.Instruction) {
+		if r, isR := in.(*ssa.Range); isR && rng == nil {
+			if _, f, base := loadedField(r.X); f == fDir && base != nil {
+				rng, source = r, base
+			}
+		}
+	})
+	if rng == nil {
+		return []Obligation{undecided(R, con1, c.Pos(merge.Pos()), "the link function ranges over no child map")}
+	}
+	var obs []Obligation
+	// (1) source.Errors is read before the function can return, and what is read reaches an adder (or the source
+	// itself is handed to a collector)
+	var taken ssa.Instruction
+	c.eachInstrDeep(merge, func(in ssa.Instruction) {
+		if taken != nil {
+			return
+		}
+		switch x := in.(type) {
+		case *ssa.Call:
+			if cal := x.Call.StaticCallee(); adds(cal) && cal != merge {
+				for i, a := range x.Call.Args {
+					if i > 0 && sameObject(resolveArg(a), resolveArg(source)) {
+						taken = x // collector over the source
+					}
+					hit := false
+					operandClosure(a, func(y ssa.Value) {
+						if _, f, base := loadedField(y); f == fErrs && base != nil && sameObject(resolveArg(base), resolveArg(source)) {
+							hit = true
+						}
+					})
+					if hit {
+						taken = x
+					}
+				}
+			}
+		case *ssa.Store:
+			if _, f, _ := fieldOf(x.Addr); f == fErrs {
+				hit := false
+				operandClosure(x.Val, func(y ssa.Value) {
+					if _, f2, base := loadedField(y); f2 == fErrs && base != nil && sameObject(resolveArg(base), resolveArg(source)) {
+						hit = true
+					}
+				})
+				if hit {
+					taken = x
+				}
+			}
+		}
+	})
+	switch {
+	case taken == nil:
+		obs = append(obs, bad(R, con1, c.Pos(merge.Pos()), "nothing reads the error list of the merged entry: what was recorded on a grouping, an augment or a submodule root (an unknown type directly under it, a bad statement) vanishes with the entry, and Process is clean"))
+	default:
+		// not under a condition other than loops over the list itself
+		conditional := false
+		for _, l := range liftAll(taken, merge, 0) {
+			for _, g := range guardsAt(l.Block()) {
+				if isLoopHeader(g.If.Block()) {
+					continue
+				}
+				conditional = true
+			}
+		}
+		if conditional {
+			obs = append(obs, bad(R, con1, c.InstrPos(taken), "the errors of the merged entry are taken over only under a condition"))
+		} else {
+			obs = append(obs, ok(R, con1, c.InstrPos(taken), "read and added to the target unconditionally"))
+		}
+	}
+	// (2) in the child loop, a branch that does not link the child collects its errors
+	ups := c.mapUpdatesOnFieldDeep(merge, fDir)
+	var linkBlocks []*ssa.BasicBlock
+	for _, mu := range ups {
+		for _, l := range liftAll(mu, rng.Parent(), 0) {
+			linkBlocks = append(linkBlocks, l.Block())
+		}
+	}
+	loop := loopHeaderOf(rng.Block())
+	_ = loop
+	checked := 0
+	for _, b := range rng.Parent().Blocks {
+		ifi, isIf := b.Instrs[len(b.Instrs)-1].(*ssa.If)
+		if !isIf {
+			continue
+		}
+		// an If inside the child loop one of whose branches leads to a link and the other does not (before the
+		// next iteration)
+		var hdr *ssa.BasicBlock
+		for _, r := range refsOf(rng) {
+			if nx, isN := r.(*ssa.Next); isN {
+				hdr = nx.Block()
+			}
+		}
+		if hdr == nil || !hdr.Dominates(b) || b == hdr {
+			continue
+		}
+		avoid := map[*ssa.BasicBlock]bool{hdr: true}
+		links := func(s *ssa.BasicBlock) bool {
+			for _, lb := range linkBlocks {
+				if s == lb || blockReaches(s, lb, avoid) {
+					return true
+				}
+			}
+			return false
+		}
+		l0, l1 := links(b.Succs[0]), links(b.Succs[1])
+		if l0 == l1 {
+			continue
+		}
+		skip := b.Succs[0]
+		if l0 {
+			skip = b.Succs[1]
+		}
+		checked++
+		collected := false
+		seen := map[*ssa.BasicBlock]bool{}
+		stack := []*ssa.BasicBlock{skip}
+		for len(stack) > 0 && !collected {
+			x := stack[len(stack)-1]
+			stack = stack[:len(stack)-1]
+			if seen[x] || avoid[x] {
+				continue
+			}
+			seen[x] = true
+			for _, in := range x.Instrs {
+				call, isC := in.(*ssa.Call)
+				if !isC {
+					continue
+				}
+				cal := call.Call.StaticCallee()
+				if !adds(cal) || len(c.callsTo(cal, cal)) == 0 {
+					continue
+				}
+				// a recursive collector handed the child (the range value or its copy)
+				for _, a := range call.Call.Args {
+					fromChild := false
+					operandClosure(a, func(y ssa.Value) {
+						if ex, isE := y.(*ssa.Extract); isE {
+							if nx, isN := ex.Tuple.(*ssa.Next); isN && nx.Iter == ssa.Value(rng) {
+								fromChild = true
+							}
+						}
+					})
+					if fromChild {
+						collected = true
+					}
+				}
+			}
+			stack = append(stack, x.Succs...)
+		}
+		con := con2
+		if checked > 1 {
+			con = fmt.Sprintf("%s #%d", con2, checked)
+		}
+		if collected {
+			obs = append(obs, ok(R, con, c.InstrPos(ifi), "the branch that refuses the child hands it to the error collector"))
+		} else {
+			obs = append(obs, bad(R, con, c.InstrPos(ifi), "the branch that refuses the child (a duplicate name) drops it with everything recorded on it: an unknown type inside the second of two colliding augments is never reported"))
+		}
+	}
+	if checked == 0 {
+		o := ok(R, con2, c.Pos(merge.Pos()), "every child is linked")
+		obs = append(obs, o)
+	}
+	return obs
+}
+
+// ---------------------------------------------------------------- FILE.NAMEONLY (hunt/h3/C01/finding2)
+
+func init() {
+	register(&Rule{Name: "FILE.NAMEONLY", Props: []string{"C01", "C13"}, Floor: 1,
+		Doc: "the argument of an import or include statement is never opened as a path: the resolver reads from disk only under a test that the name holds no path separator",
+		Run: ruleFileNameOnly})
+}
+
+func ruleFileNameOnly(c *Ctx) []Obligation {
+	const R = "FILE.NAMEONLY"
+	fm := c.Fn("yang.(*Modules).FindModule")
+	read := c.Fn("yang.(*Modules).Read")
+	if fm == nil || read == nil {
+		return []Obligation{undecided(R, "import resolver", "-", "FindModule / Read not found")}
+	}
+	var obs []Obligation
+	n := 0
+	for _, ci := range c.callsToDeep(fm, read) {
+		n++
+		con := fmt.Sprintf("FindModule: disk read #%d is reached only with a name that holds no path separator", n)
+		site := ci.(ssa.Instruction)
+		args := ci.Common().Args
+		arg := args[len(args)-1]
+		guarded := false
+		for _, g := range guardsAtDeep(site.Block()) {
+			tested := sepFreeText(c, g.Cond, g.Branch, nil, 0)
+			if tested == nil {
+				continue
+			}
+			// the tested text covers the name that is read: it is that value, or a concatenation that contains it
+			if sameObject(tested, arg) {
+				guarded = true
+				continue
+			}
+			seenL := map[ssa.Value]bool{}
+			var leaves func(x ssa.Value)
+			leaves = func(x ssa.Value) {
+				if x == nil || seenL[x] {
+					return
+				}
+				seenL[x] = true
+				if sameObject(x, arg) {
+					guarded = true
+				}
+				switch y := x.(type) {
+				case *ssa.Phi:
+					for _, e := range y.Edges {
+						leaves(e)
+					}
+				case *ssa.BinOp:
+					if y.Op == token.ADD {
+						leaves(y.X)
+						leaves(y.Y)
+					}
+				}
+			}
+			leaves(tested)
+		}
+		if guarded {
+			obs = append(obs, ok(R, con, c.InstrPos(site), "under a negative strings.Contains… test for '/' on the name (and revision date)"))
+		} else {
+			obs = append(obs, bad(R, con, c.InstrPos(site), "the name written in the import or include statement goes to Read as it is, and Read opens a name with a slash in it as a path: `import /dev/zero { prefix z; }` makes Process read the device until memory runs out, and any readable file can be named"))
+		}
+	}
+	if n == 0 {
+		o := ok(R, "FindModule: reads no file", c.Pos(fm.Pos()), "no call of Read")
+		obs = append(obs, o)
+	}
+	return obs
+}
+
+// sepFreeText: if the condition having the given truth value implies that some text holds no '/', that text (as a
+// value of the function the condition is evaluated in; a predicate helper's parameter is replaced by the argument).
+func sepFreeText(c *Ctx, cond ssa.Value, branch bool, subst map[*ssa.Parameter]ssa.Value, depth int) ssa.Value {
+	if depth > 4 {
+		return nil
+	}
+	switch x := cond.(type) {
+	case *ssa.UnOp:
+		if x.Op == token.NOT {
+			return sepFreeText(c, x.X, !branch, subst, depth+1)
+		}
+	case *ssa.Call:
+		cal := x.Call.StaticCallee()
+		if cal == nil {
+			return nil
+		}
+		if cal.Pkg != nil && cal.Pkg.Pkg.Path() == "strings" && strings.HasPrefix(cal.Name(), "Contains") && len(x.Call.Args) == 2 {
+			if branch {
+				return nil
+			}
+			sep := false
+			if s, isS := constString(x.Call.Args[1]); isS && strings.Contains(s, "/") {
+				sep = true
+			}
+			if k, isK := constInt(x.Call.Args[1]); isK && k == '/' {
+				sep = true
+			}
+			if !sep {
+				return nil
+			}
+			t := x.Call.Args[0]
+			if p, isP := t.(*ssa.Parameter); isP && subst[p] != nil {
+				return subst[p]
+			}
+			return t
+		}
+		// a predicate of the repository: one return, whose value is evaluated with the arguments put in
+		if c.isRepoFn(cal) && cal.Blocks != nil && cal.Signature.Results().Len() == 1 && isBoolType(cal.Signature.Results().At(0).Type()) {
+			var rets []*ssa.Return
+			eachInstr(cal, func(in ssa.Instruction) {
+				if r, isR := in.(*ssa.Return); isR {
+					rets = append(rets, r)
+				}
+			})
+			if len(rets) != 1 {
+				return nil
+			}
+			m := map[*ssa.Parameter]ssa.Value{}
+			for i, p := range cal.Params {
+				if i < len(x.Call.Args) {
+					a := x.Call.Args[i]
+					if ap, isP := a.(*ssa.Parameter); isP && subst[ap] != nil {
+						a = subst[ap]
+					}
+					m[p] = a
+				}
+			}
+			return sepFreeText(c, rets[0].Results[0], branch, m, depth+1)
+		}
+	}
+	return nil
+}
+
+// ---------------------------------------------------------------- REC.DAGMEMO (hunt/h3/C01/finding3)
+
+func init() {
+	register(&Rule{Name: "REC.DAGMEMO", Props: []string{"C01", "C09"}, Floor: 1,
+		Doc: "the recursive comparison of resolved types, whose union members are shared between types, remembers the pairs it has compared: it walks a graph, not the tree the graph unfolds to",
+		Run: ruleRecDagMemo})
+}
+
+func ruleRecDagMemo(c *Ctx) []Obligation {
+	const R = "REC.DAGMEMO"
+	con := "the comparison of two resolved types visits each pair of (shared) union members once"
+	eq := c.Fn("yang.(*YangType).Equal")
+	yt := c.Named("yang", "YangType")
+	if eq == nil || yt == nil {
+		return []Obligation{undecided(R, con, "-", "(*YangType).Equal not found")}
+	}
+	isYT := func(t types.Type) bool {
+		pt, ok := t.(*types.Pointer)
+		return ok && namedOf(pt.Elem()) == yt
+	}
+	// the functions on a call cycle reachable from Equal that take two types
+	reach := c.Reach([]*ssa.Function{eq}, nil)
+	var workers []*ssa.Function
+	for fn := range reach {
+		if !c.isRepoFn(fn) || fn.Blocks == nil || len(fn.Params) < 2 || !isYT(fn.Params[0].Type()) || !isYT(fn.Params[1].Type()) {
+			continue
+		}
+		if c.Reach([]*ssa.Function{fn}, nil)[fn] {
+			// fn can reach itself?  Reach includes its roots, so test a real cycle through a callee
+			cyc := false
+			eachInstr(fn, func(in ssa.Instruction) {
+				if ci, isC := in.(ssa.CallInstruction); isC {
+					for _, cal := range c.Callees(ci) {
+						if c.isRepoFn(cal) && (cal == fn || c.Reach([]*ssa.Function{cal}, nil)[fn]) {
+							cyc = true
+						}
+					}
+				}
+			})
+			if cyc {
+				workers = append(workers, fn)
+			}
+		}
+	}
+	if len(workers) == 0 {
+		return []Obligation{ok(R, con, c.Pos(eq.Pos()), "the comparison does not recurse")}
+	}
+	sort.Slice(workers, func(i, j int) bool { return workers[i].Pos() < workers[j].Pos() })
+	var obs []Obligation
+	for _, w := range workers {
+		conw := con
+		if len(workers) > 1 {
+			conw = fmt.Sprintf("%s (%s)", con, c.FnName(w))
+		}
+		// a lookup keyed by both operands, with a return on a hit, before any recursive call; and an update of the
+		// same map (here or in a deferred closure)
+		var lk *ssa.Lookup
+		eachInstr(w, func(in ssa.Instruction) {
+			l, isL := in.(*ssa.Lookup)
+			if !isL || lk != nil {
+				return
+			}
+			if _, isMap := l.X.Type().Underlying().(*types.Map); !isMap {
+				return
+			}
+			both := [2]bool{}
+			operandClosure(l.Index, func(y ssa.Value) {
+				for k := 0; k < 2; k++ {
+					if isParamN(w, y, k) {
+						both[k] = true
+					}
+				}
+			})
+			if both[0] && both[1] {
+				lk = l
+			}
+		})
+		if lk == nil {
+			obs = append(obs, bad(R, conw, c.Pos(w.Pos()), "no table of compared pairs is consulted: union members are shared between the types built from them, so two equal, separately written families of unions of unions are compared along every path — the time doubles per level and a valid 10 kB module keeps Process busy for weeks"))
+			continue
+		}
+		okAll := true
+		eachInstr(w, func(in ssa.Instruction) {
+			ci, isC := in.(ssa.CallInstruction)
+			if !isC {
+				return
+			}
+			if _, isDefer := in.(*ssa.Defer); isDefer {
+				return
+			}
+			for _, cal := range c.Callees(ci) {
+				if c.isRepoFn(cal) && (cal == w || c.Reach([]*ssa.Function{cal}, nil)[w]) && !dominates(lk, in) {
+					okAll = false
+				}
+			}
+		})
+		stored := false
+		for _, f := range append([]*ssa.Function{w}, w.AnonFuncs...) {
+			eachInstr(f, func(in ssa.Instruction) {
+				if mu, isMU := in.(*ssa.MapUpdate); isMU && sameObject(resolveArg(rootOf(mu.Map)), resolveArg(rootOf(lk.X))) {
+					stored = true
+				}
+				if mu, isMU := in.(*ssa.MapUpdate); isMU && mu.Map.Type() == lk.X.Type() {
+					stored = true
+				}
+			})
+		}
+		switch {
+		case !okAll:
+			obs = append(obs, bad(R, conw, c.InstrPos(lk), "a recursive call is reached without the table of compared pairs having been consulted"))
+		case !stored:
+			obs = append(obs, bad(R, conw, c.InstrPos(lk), "the table of compared pairs is consulted but never filled"))
+		default:
+			obs = append(obs, ok(R, conw, c.InstrPos(lk), "a table keyed by the pair of operands is consulted before every recursive call and filled with the outcome"))
+		}
+	}
+	return obs
+}
+
+// ---------------------------------------------------------------- ERR.LOCSPLIT (hunt/h3/C05/finding3)
+
+func init() {
+	register(&Rule{Name: "ERR.LOCSPLIT", Props: []string{"C05", "C04"}, Floor: 1,
+		Doc: "the error comparator takes source name, line and column from the position as Statement.Location prints it — a name may be empty or contain colons — not from the text between the first colons",
+		Run: ruleErrLocSplit})
+}
+
+func ruleErrLocSplit(c *Ctx) []Obligation {
+	const R = "ERR.LOCSPLIT"
+	con := "the pieces the error comparator compares are source name, line and column for every form of position"
+	less := c.Fn("yang.(sortedErrors).Less")
+	if less == nil {
+		return []Obligation{undecided(R, con, "-", "sortedErrors.Less not found")}
+	}
+	// the pattern: a package-level *regexp.Regexp that the comparator (or its private helper) matches with
+	var g *ssa.Global
+	var at ssa.Instruction
+	c.eachInstrDeep(less, func(in ssa.Instruction) {
+		call, isC := in.(*ssa.Call)
+		if !isC || g != nil {
+			return
+		}
+		cal := call.Call.StaticCallee()
+		if cal == nil || cal.Signature.Recv() == nil || !strings.Contains(cal.Signature.Recv().Type().String(), "regexp.Regexp") || !strings.Contains(cal.Name(), "Submatch") {
+			return
+		}
+		if u, isU := call.Call.Args[0].(*ssa.UnOp); isU {
+			if gl, isG := u.X.(*ssa.Global); isG {
+				g, at = gl, in
+			}
+		}
+	})
+	if g == nil {
+		return []Obligation{bad(R, con, c.Pos(less.Pos()), "the text is only split at its first colons: with a source name that contains a colon (C:\\models\\m.yang, http://host/m.yang) the pieces are misaligned and the column is compared as text (33 before 9); a text parsed without a name is positioned `line L:C` and compared as one string (line 10 before line 4)")}
+	}
+	pattern := ""
+	if initFn := c.SSA[modPath+"/pkg/yang"].Func("init"); initFn != nil {
+		eachInstr(initFn, func(in ssa.Instruction) {
+			call, isC := in.(*ssa.Call)
+			if !isC || !(calleeIs(call, "regexp", "MustCompile") || calleeIs(call, "regexp", "Compile")) {
+				return
+			}
+			for _, r := range *call.Referrers() {
+				if st, isS := r.(*ssa.Store); isS && st.Addr == ssa.Value(g) {
+					if s, isK := constString(call.Call.Args[0]); isK {
+						pattern = s
+					}
+				}
+			}
+		})
+	}
+	if pattern == "" {
+		return []Obligation{undecided(R, con, c.InstrPos(at), "the pattern matched with is not a constant compiled in the package initialiser")}
+	}
+	re, err := regexp.Compile(pattern)
+	if err != nil {
+		return []Obligation{bad(R, con, c.InstrPos(at), "the position pattern does not compile: "+err.Error())}
+	}
+	// what Statement.Location prints, and what must come out (the three leading groups that are not empty or the
+	// name group being empty)
+	for _, tc := range []struct {
+		in, file, line, col string
+		match               bool
+	}{
+		{"m.yang:3:5: unknown type", "m.yang", "3", "5", true},
+		{`C:\models\m.yang:3:33: unknown type: a:b`, `C:\models\m.yang`, "3", "33", true},
+		{"http://example.com/models/m.yang:12:7: x: y", "http://example.com/models/m.yang", "12", "7", true},
+		{"line 12:3: unknown type", "", "12", "3", true},
+		{"dir/a:b.yang:1:1: x", "dir/a:b.yang", "1", "1", true},
+	} {
+		m := re.FindStringSubmatch(tc.in)
+		if m == nil {
+			return []Obligation{bad(R, con, c.InstrPos(at), fmt.Sprintf("the position pattern %q does not recognise %q", pattern, tc.in))}
+		}
+		var got []string
+		for _, x := range m[1:] {
+			got = append(got, x)
+		}
+		// the name group may be absent (empty) for the nameless form
+		for len(got) < 3 {
+			got = append(got, "")
+		}
+		if len(got) > 3 {
+			// drop empty optional groups in front of the numbers
+			var nz []string
+			for _, x := range got {
+				if x != "" || len(nz) == 0 && tc.file == "" {
+					nz = append(nz, x)
+				}
+			}
+			if len(nz) >= 3 {
+				got = nz
+			}
+		}
+		if got[0] != tc.file || got[1] != tc.line || got[2] != tc.col {
+			return []Obligation{bad(R, con, c.InstrPos(at), fmt.Sprintf("the position pattern %q takes %q apart as name %q, line %q, column %q", pattern, tc.in, got[0], got[1], got[2]))}
+		}
+	}
+	return []Obligation{ok(R, con, c.InstrPos(at), fmt.Sprintf("the pattern %q takes name, line and column from names with colons, plain names and the nameless form alike", pattern))}
 }
